@@ -197,7 +197,8 @@ impl CGen {
                 vec![(self.r.below(6) + 1) as u8; 32]
             },
             // output indices whose numeric order differs from their order as decimal strings
-            index: *self.r.pick(&[0u32, 1, 2, 2, 9, 10, 11, 25, 100]),
+            // ... and, now and then, indices congruent modulo the narrower integer widths (nothing bounds the field)
+            index: *self.r.pick(&[0u32, 1, 2, 2, 9, 10, 11, 25, 100, 1, 257, 65_537, 65_536, u32::MAX]),
         }
     }
 
